@@ -312,7 +312,7 @@ pub fn render_case(c: &Case, it: &mut Interner) -> String {
 }
 
 // ------------------------------------------------------------------ writing the UFO
-fn esc(s: &str) -> String {
+pub fn esc(s: &str) -> String {
     let mut o = String::new();
     for c in s.chars() {
         match c {
@@ -325,9 +325,9 @@ fn esc(s: &str) -> String {
     }
     o
 }
-const HEAD: &str = "<?xml version=\"1.0\" encoding=\"UTF-8\"?>\n<plist version=\"1.0\">\n";
+pub const HEAD: &str = "<?xml version=\"1.0\" encoding=\"UTF-8\"?>\n<plist version=\"1.0\">\n";
 
-fn order<T: Clone>(items: Vec<T>, shuffle: u64, salt: u64) -> Vec<T> {
+pub fn order<T: Clone>(items: Vec<T>, shuffle: u64, salt: u64) -> Vec<T> {
     let mut v = items;
     if shuffle != 0 {
         let mut r = Rng::new(shuffle ^ salt);
@@ -451,8 +451,14 @@ pub struct Observed {
 }
 
 pub fn observe(dir: &Path, c: &Case, do_resave: bool) -> Observed {
+    observe_with(dir, c, do_resave, &|_| {}).0
+}
+
+/// `extra` may add files to the generated UFO before it is loaded; the loaded font is returned too
+pub fn observe_with(dir: &Path, c: &Case, do_resave: bool, extra: &dyn Fn(&Path)) -> (Observed, Option<Font>) {
     let ufo = dir.join("in.ufo");
     write_ufo(&ufo, c);
+    extra(&ufo);
     let mut loaded: Option<Font> = None;
     let load = match catch(|| Font::load(&ufo)) {
         Err(m) => LoadOut::Panicked(m),
@@ -511,7 +517,7 @@ pub fn observe(dir: &Path, c: &Case, do_resave: bool) -> Observed {
             };
         }
     }
-    Observed { load, save_direct, resave, resave_same }
+    (Observed { load, save_direct, resave, resave_same }, loaded)
 }
 
 // ------------------------------------------------------------------ the property's own predicates
